@@ -215,6 +215,41 @@ def pickedPrecursor [LE σ] [DecidableLE σ] [LE ι] [DecidableLE ι] [Add α] [
     (cast : Nat → α) (zero one thr : α) (peaks : List (Row ι σ)) : List (Row ι σ × α) × Nat :=
   assignRows (fun r => if r.decoy then one else zero) cast one thr peaks
 
+/-! ### the two public functions over a database -/
+
+instance : Inhabited Pep := ⟨⟨false, [], [], none, none, []⟩⟩
+
+/-- the competition's view of the PSM list in `picked_peptide`: key = `pepKey`, stored index = `peptide_idx`.
+    `feats` = (peptide_idx, discriminant score); `none` = an index outside the database (`db[idx]` panics) -/
+def pepPsms {σ : Type} (gd : Bool) (peps : List Pep) (feats : List (Nat × σ)) : Option (List (Psm PepKey Nat σ)) :=
+  if feats.all (fun f => f.1 < peps.length) then
+    some (feats.map fun f =>
+      let p := peps.getD f.1 default
+      { key := pepKey gd p, decoy := p.decoy, ix := f.1, score := f.2 })
+  else none
+
+/-- … in `picked_protein`: key = the protein list, stored index = the joined protein-group string -/
+def protPsms {σ : Type} (gd : Bool) (tag : String) (peps : List Pep) (feats : List (Nat × σ)) :
+    Option (List (Psm (List String) String σ)) :=
+  if feats.all (fun f => f.1 < peps.length) then
+    some (feats.map fun f =>
+      let p := peps.getD f.1 default
+      { key := p.prots, decoy := p.decoy, ix := p.proteinStr tag gd, score := f.2 })
+  else none
+
+/-- `picked_peptide(db, features)`: q-value per PSM and the passing count (`none` = panic).
+    The map's iteration order is taken to be first-insertion order: it does not matter (`order_invariant`). -/
+def pickedPeptide {σ : Type} [LE σ] [DecidableLE σ] [Add α] [Div α] [LE α] [DecidableLE α]
+    (bot : σ) (pep : σ → α) (cast : Nat → α) (one thr : α) (gd : Bool) (peps : List Pep)
+    (feats : List (Nat × σ)) : Option (List α × Nat) :=
+  (pepPsms gd peps feats).bind fun psms => pickedWith pep cast one thr (competition bot psms) psms
+
+/-- `picked_protein(db, features)` -/
+def pickedProtein {σ : Type} [LE σ] [DecidableLE σ] [Add α] [Div α] [LE α] [DecidableLE α]
+    (bot : σ) (pep : σ → α) (cast : Nat → α) (one thr : α) (gd : Bool) (tag : String) (peps : List Pep)
+    (feats : List (Nat × σ)) : Option (List α × Nat) :=
+  (protPsms gd tag peps feats).bind fun psms => pickedWith pep cast one thr (competition bot psms) psms
+
 /-! ### specification (as naive as possible; evaluated by the driver on the implementation's output) -/
 
 /-- best score of the entity `ix` among the PSMs (never below `bot`, the code's starting value) -/
